@@ -41,6 +41,17 @@ func c12Births(c *ctx) {
 		add(y, 12, 31, 86399)
 		add(y, 1, 1, 0)
 	}
+	for cy := 1700; cy <= 9900; cy += 100 {
+		if cy%400 == 0 {
+			continue
+		}
+		for _, back := range []int{4, 8} {
+			add(cy-back, 2, 29, 3600*((cy/100)%24)+1234)
+		}
+	}
+	for _, ymd := range [][3]int{{15, 12, 30}, {15, 12, 31}, {18, 12, 27}, {18, 12, 29}, {18, 12, 31}, {16, 1, 1}} {
+		add(ymd[0], ymd[1], ymd[2], 43200)
+	}
 	for len(births) < n*4 {
 		y := 1 + c.rng.Intn(9990)
 		if c.rng.Intn(2) == 0 {
@@ -52,8 +63,8 @@ func c12Births(c *ctx) {
 		}
 		add(y, 1+c.rng.Intn(12), 1+c.rng.Intn(31), sod)
 	}
-	if c.tier != "thorough" && len(births) > n+400 {
-		births = births[:n+400]
+	if c.tier != "thorough" && len(births) > n+600 {
+		births = births[:n+600]
 	}
 	for i, b := range births {
 		if !c.mine(i) {
